@@ -138,6 +138,9 @@ type config struct {
 	Prot     bool    `json:"protection"`
 	Filter   bool    `json:"global_filtering"`
 	ClientOK string  `json:"client"` // none, own-off
+	// Cache: the proxy's answer cache is on and every question is asked twice;
+	// the judged response is the second one, served from the cache.
+	Cache bool `json:"answer_cache,omitempty"`
 }
 
 type caseC struct {
@@ -197,7 +200,12 @@ func (e *env) runConfig(cf *config, qtypes []uint16, seqs [][]string) {
 		BlockRules: cf.Rules.Block, CustomRules: cf.Rules.Custom, AllowRules: cf.Rules.Allow,
 		Mode: filtering.BlockingMode(cf.Mode), BlockedTTL: 10, ProtectionEnabled: cf.Prot, FilteringEnabled: cf.Filter,
 		BlockingIPv4: srv.CustomV4, BlockingIPv6: srv.CustomV6,
-		Conf: func(sc *dnsforward.ServerConfig) { sc.AAAADisabled = cf.AAAAOff },
+		Conf: func(sc *dnsforward.ServerConfig) {
+			sc.AAAADisabled = cf.AAAAOff
+			if cf.Cache {
+				sc.CacheSize = 1 << 20
+			}
+		},
 	}
 	ql := &srv.RecLog{}
 	sp.QueryLog = ql
@@ -234,6 +242,21 @@ func (e *env) runConfig(cf *config, qtypes []uint16, seqs [][]string) {
 			var pctx *proxy.DNSContext
 			var berr, herr error
 			var pan any
+			wantCalls := 1
+			if cf.Cache && !(cf.AAAAOff && qt == dns.TypeAAAA) && !(qv == "blocked" && cf.Prot && filteringOn) {
+				// Prime the cache with this answer section; the question is then asked again.
+				a.Server.VerifClearCache()
+				func() {
+					defer func() { pan = recover() }()
+					_, berr, herr = a.Query(qName, qt, cliAddr+":999", proxy.ProtoUDP)
+				}()
+				if n := len(a.Upstream.Reset()); pan != nil || berr != nil || herr != nil || n != 1 {
+					c.Violation("cache-priming-failed", fmt.Sprintf("first query: panic=%v before=%v err=%v upstream calls=%d\ncase: %s", pan, berr, herr, n, jsonStr(cs)), cs)
+					continue
+				}
+				ql.Reset()
+				wantCalls = 0
+			}
 			func() {
 				defer func() { pan = recover() }()
 				pctx, berr, herr = a.Query(qName, qt, cliAddr+":999", proxy.ProtoUDP)
@@ -257,8 +280,13 @@ func (e *env) runConfig(cf *config, qtypes []uint16, seqs [][]string) {
 			if qv == "blocked" && cf.Prot && filteringOn {
 				continue // blocked before the upstream stage (C01)
 			}
-			if len(asked) != 1 {
-				c.Violation("upstream-calls", fmt.Sprintf("expected exactly one upstream call, got %v\ncase: %s", asked, jsonStr(cs)), cs)
+			if wantCalls == 0 && len(asked) == 0 {
+				c.Count("answers_from_cache", 1)
+			}
+			// (The proxy does not cache every answer, e.g. one without a record
+			// of the queried type; the second question then goes upstream again.)
+			if len(asked) != wantCalls && !(wantCalls == 0 && len(asked) == 1) {
+				c.Violation("upstream-calls", fmt.Sprintf("expected exactly %d upstream call(s), got %v\ncase: %s", wantCalls, asked, jsonStr(cs)), cs)
 				continue
 			}
 			// Reference: first answer record exposing a blocked host decides.
@@ -313,10 +341,18 @@ func (e *env) runConfig(cf *config, qtypes []uint16, seqs [][]string) {
 			}
 			bad := false
 			for i := range ans {
-				g := strings.Join(strings.Fields(m.Answer[i].String()), " ")
-				w1 := strings.Join(strings.Fields(ans[i].String()), " ")
-				w2 := strings.Join(strings.Fields(stripV6(ans[i]).String()), " ")
-				if g != w1 && !(cf.AAAAOff && g == w2) {
+				norm := func(rr dns.RR) string {
+					f := strings.Fields(rr.String())
+					if cf.Cache && len(f) > 1 {
+						f[1] = "ttl" // a cached record's TTL counts down
+					}
+					return strings.Join(f, " ")
+				}
+				g, w1, w2 := norm(m.Answer[i]), norm(ans[i]), norm(stripV6(ans[i]))
+				// With AAAA answers disabled the response-filtering stage drops the IPv6
+				// hints of HTTPS records; where that stage is not applicable the
+				// statement's "unchanged" is taken literally.
+				if g != w1 && !(cf.AAAAOff && applicable && g == w2) {
 					bad = true
 				}
 			}
@@ -369,6 +405,8 @@ func run(c *lib.Ctx) {
 			f.Rules, f.Mode = rs, "default"
 			confs = append(confs, f)
 		}
+		confs = append(confs, config{Rules: rs, Mode: "default", Prot: true, Filter: true, ClientOK: "none", Cache: true},
+			config{Rules: rs, Mode: "null_ip", AAAAOff: true, Prot: true, Filter: true, ClientOK: "none", Cache: true})
 	}
 	// Split the sequence list into chunks so that shards balance.
 	const chunk = 400
@@ -425,9 +463,9 @@ func main() {
 				"distinct_nontrivial": m.Distinct["nontrivial"],
 				"configurations":      m.Counters["configs"],
 				"distinct_cells":      m.Distinct["cells"],
-				"rule": "every answer section of length <=3 (quick) / <=4 (thorough) over 15 record kinds (CNAME safe/bad/case/excepted with owner chaining, A/AAAA safe/bad, HTTPS with no hint, bad v4 hint, bad v6 hint, clean first hint + bad later hint, hint list with bad last, TXT, MX) x 10 rule sets x (5 modes + 5 flag variants: AAAA disabled, protection off, filtering off, client filtering off) x 5 query types, through the real pipeline with a scripted upstream; oracle: first record exposing a host the rule model blocks => blocking-mode response for the query's type (no upstream data) and a log entry with original answer; else the upstream answer unchanged. distinct_nontrivial = distinct (configuration, qtype, answer section) where some record is blocked",
+				"rule": "every answer section of length <=3 (quick) / <=4 (thorough) over 15 record kinds (CNAME safe/bad/case/excepted with owner chaining, A/AAAA safe/bad, HTTPS with no hint, bad v4 hint, bad v6 hint, clean first hint + bad later hint, hint list with bad last, TXT, MX) x 10 rule sets x (5 modes + 5 flag variants: AAAA disabled, protection off, filtering off, client filtering off + 2 variants with the proxy's answer cache on, where every question is asked twice and the second, cached, response is judged) x 5 query types, through the real pipeline with a scripted upstream; oracle: first record exposing a host the rule model blocks => blocking-mode response for the query's type (no upstream data) and a log entry with original answer; else the upstream answer unchanged. distinct_nontrivial = distinct (configuration, qtype, answer section) where some record is blocked",
 			}
 		},
-		Assumptions: []string{"single-rule matching delegated to urlfilter", "with AAAA disabled, HTTPS records are accepted with or without their ipv6hint"},
+		Assumptions: []string{"single-rule matching delegated to urlfilter", "with AAAA disabled and response filtering applicable, HTTPS records are accepted with or without their ipv6hint; where response filtering is not applicable the answer must be byte-identical", "a cached answer is compared without its TTL"},
 	})
 }
